@@ -201,6 +201,9 @@ def scan_facts(prog, mapb, nfields):
             facts["fit"] = Fact(True, exact[0].node, f"`{short(exact[0].node, 50)}` leaves iff pos + header + key_len + record_len > file size"
                                 + (f" ({len(size_guards) - len(exact)} weaker bound(s) implied)" if len(size_guards) > len(exact) else ""), "")
         facts["_fit_guards"] = [g for g, _ in size_guards]
+    else:
+        facts["fit"] = Fact(False, rec.node, "", "whether an indexed block fits into the file cannot be related to the offset it is indexed at: that offset is not one the scan tracks")
+        facts["_fit_guards"] = []
     # ---- F6 ------------------------------------------------------------------
     if "eof" not in proved:
         facts["eof"] = Fact(False, eof_stores[-1], "", f"_eof is set from `{short(q_expr, 40)}`, which is not an offset the scan tracks")
